@@ -14,15 +14,19 @@ open Neumann.KV
 
 /-! ### single-step operations: every key class except `emb:`, without the durable log -/
 
-/-- FULL STRENGTH, every number of threads, every program, every schedule: when every operation is
-    a single atomic step (put/get/delete/exists on plain, graph, table and cache keys, every scan,
-    durable forms of cache keys), then the history IN STEP ORDER is a legal sequential execution
+/-- FULL STRENGTH, every number of threads, every program, every schedule, keys any byte strings
+    (their class is what `classify_key` computes): when every operation is a single atomic step
+    (put/get/delete/exists on plain, graph, table and cache keys, scans, durable forms of cache
+    keys) and every scan prefix has an end key (`Op.scanBounded`: "", or a string whose last byte is
+    neither 0x7F nor 0xBF, see `ScanProps.bounded_prefix_iff`; on the others `MetadataSlab::scan`
+    over-returns even sequentially, `ScanProps.scan_prefix_without_successor_witness`), then the
+    history IN STEP ORDER is a legal sequential execution
     with every result exactly the specification's (`SeqStrict`, hence `SeqValid`); the step order
     respects real time (each operation is invoked and returns at its one step; the history is
     strictly increasing in it); the final store is the specification applied in step order
     (`Abs`); so the history is linearizable. -/
 theorem single_step_ops_linearizable (walOn : Bool) (progs : List ThreadProgram) (sched : List Nat)
-    (h : ∀ p ∈ progs, ∀ op ∈ p, op.singleStep) :
+    (h : ∀ p ∈ progs, ∀ op ∈ p, op.singleStep ∧ op.scanBounded = true) :
     let r := runSched walOn progs sched
     SeqStrict [] r.hist ∧ SeqValid [] r.hist ∧
     (∀ x ∈ r.hist, x.inv = x.ret) ∧ r.hist.Pairwise (fun a b => a.ret < b.inv) ∧
@@ -42,28 +46,29 @@ theorem single_step_ops_linearizable (walOn : Bool) (progs : List ThreadProgram)
 /-- non-vacuity: four threads on contended plain / graph / table / cache keys, an interleaved
     schedule, 8 completed operations; the reads see the other threads' writes -/
 example :
-    (∀ p ∈ ([[.put ⟨.plain, 1⟩ ⟨1, .none⟩, .get ⟨.cache, 1⟩], [.get ⟨.plain, 1⟩, .delete ⟨.plain, 1⟩],
-        [.put ⟨.cache, 1⟩ ⟨2, .good 2⟩, .scan none], [.exists_ ⟨.plain, 1⟩, .put ⟨.graph, 2⟩ ⟨3, .none⟩]]
-        : List ThreadProgram), ∀ op ∈ p, op.singleStep) ∧
-    (runSched false [[.put ⟨.plain, 1⟩ ⟨1, .none⟩, .get ⟨.cache, 1⟩], [.get ⟨.plain, 1⟩, .delete ⟨.plain, 1⟩],
-        [.put ⟨.cache, 1⟩ ⟨2, .good 2⟩, .scan none], [.exists_ ⟨.plain, 1⟩, .put ⟨.graph, 2⟩ ⟨3, .none⟩]]
+    (∀ p ∈ ([[.put (mkKey .plain 1) ⟨1, .none⟩, .get (mkKey .cache 1)], [.get (mkKey .plain 1), .delete (mkKey .plain 1)],
+        [.put (mkKey .cache 1) ⟨2, .good 2⟩, .scan []], [.exists_ (mkKey .plain 1), .put (mkKey .graph 2) ⟨3, .none⟩]]
+        : List ThreadProgram), ∀ op ∈ p, op.singleStep ∧ op.scanBounded = true) ∧
+    (runSched false [[.put (mkKey .plain 1) ⟨1, .none⟩, .get (mkKey .cache 1)], [.get (mkKey .plain 1), .delete (mkKey .plain 1)],
+        [.put (mkKey .cache 1) ⟨2, .good 2⟩, .scan []], [.exists_ (mkKey .plain 1), .put (mkKey .graph 2) ⟨3, .none⟩]]
         [0, 1, 2, 3, 2, 0, 3, 1]).hist.map (·.res)
-      = [.ok, .found ⟨1, .none⟩, .ok, .bool true, .keys [⟨.plain, 1⟩, ⟨.cache, 1⟩],
+      = [.ok, .found ⟨1, .none⟩, .ok, .bool true, .keys [(mkKey .plain 1), (mkKey .cache 1)],
          .found ⟨2, .good 2⟩, .ok, .ok] := by decide
 
-/-- a scan with the prefix of ONE class (`user:`, `node:`, `table:`, `_cache:`; also `emb:` and ""
-    while no `emb:` key is in use) is one atomic step: in any run of single-step operations it
-    returns exactly the keys of that class present in the specification state at its step.
+/-- a scan with ANY prefix that has an end key (the class prefixes `user:` `node:` `edge:` `table:`
+    `_cache:`, prefixes that cut across classes such as `e` or `_`, "", while no `emb:` key is in
+    use) is one atomic step: in any run of single-step operations it returns exactly the keys that
+    start with the prefix (byte-wise) and are present in the specification state at its step.
     (`MetadataSlab::scan` with a non-empty prefix reads one shard under one read lock; the
     entity-index and cache-ring reads that follow in `SlabRouter::scan` have no yield hook between
     them — at the granularity of the hooks the whole scan is one step.) -/
-theorem scan_atomic_for_single_class_prefix (walOn : Bool) (progs : List ThreadProgram)
-    (sched : List Nat) (h : ∀ p ∈ progs, ∀ op ∈ p, op.singleStep)
-    (pre : List OpRec) (x : OpRec) (post : List OpRec) (c : Option KeyClass) (ks : List Key)
+theorem scan_atomic_and_exact_for_bounded_prefix (walOn : Bool) (progs : List ThreadProgram)
+    (sched : List Nat) (h : ∀ p ∈ progs, ∀ op ∈ p, op.singleStep ∧ op.scanBounded = true)
+    (pre : List OpRec) (x : OpRec) (post : List OpRec) (c : List Nat) (ks : List Key)
     (hx : (runSched walOn progs sched).hist = pre ++ x :: post)
     (hop : x.op = .scan c) (hres : x.res = .keys ks) :
     x.inv = x.ret ∧
-    ∀ k, k ∈ ks ↔ (pmatch c k = true ∧ (aget (specRun [] (pre.map (·.op))) k).isSome = true) := by
+    ∀ k, k ∈ ks ↔ (isPfx c k.bytes = true ∧ (aget (specRun [] (pre.map (·.op))) k).isSome = true) := by
   have inv : Inv (runSched walOn progs sched) := (Inv.init walOn progs h).run sched
   have hstrict := inv.strict
   rw [hx] at hstrict
@@ -83,10 +88,23 @@ theorem scan_atomic_for_single_class_prefix (walOn : Bool) (progs : List ThreadP
   constructor
   · intro hk
     have := h2.1 hk
-    simpa [List.mem_filter, mem_keys_iff, and_comm] using this
+    simpa [List.mem_filter, mem_keys_iff, and_comm, pmatch] using this
   · intro hk
     apply h2.2
-    simpa [List.mem_filter, mem_keys_iff, and_comm] using hk
+    simpa [List.mem_filter, mem_keys_iff, and_comm, pmatch] using hk
+
+/-- non-vacuity: a scan with the prefix `e` (it cuts across the plain key `eve`, the graph key
+    `edge:1` and — were one in use — `emb:` keys) racing a put and a delete; `user:1` (same shard
+    as `e`: 0x75 and 0x65 are both 5 mod 16) is not listed -/
+example :
+    (∀ p ∈ ([[.put ⟨[101, 118, 101]⟩ ⟨1, .none⟩, .delete ⟨[101, 118, 101]⟩],
+        [.put ⟨pfxEdge ++ [49]⟩ ⟨2, .none⟩, .put (mkKey .plain 1) ⟨3, .none⟩],
+        [.scan [101], .scan [101]]] : List ThreadProgram), ∀ op ∈ p, op.singleStep ∧ op.scanBounded = true) ∧
+    (runSched false [[.put ⟨[101, 118, 101]⟩ ⟨1, .none⟩, .delete ⟨[101, 118, 101]⟩],
+        [.put ⟨pfxEdge ++ [49]⟩ ⟨2, .none⟩, .put (mkKey .plain 1) ⟨3, .none⟩],
+        [.scan [101], .scan [101]]] [0, 1, 1, 2, 0, 2]).hist.map (·.res)
+      = [.ok, .ok, .ok, .keys [⟨pfxEdge ++ [49]⟩, ⟨[101, 118, 101]⟩], .ok, .keys [⟨pfxEdge ++ [49]⟩]] := by
+  decide
 
 /-- in ANY legal sequential execution (hence in any linearization of any history) a `get` that
     finds a value finds one that some put of that key wrote: "a read never returns a value that
@@ -105,7 +123,7 @@ theorem linearizable_read_returns_written_value (recs : List OpRec) (hl : Linear
     every interleaving of operations of every key class is linearizable. -/
 def EmbLinearizable : Prop :=
   ∀ (progs : List ThreadProgram) (sched : List Nat),
-    (∀ p ∈ progs, ∀ op ∈ p, op.nonDurable = true) →
+    (∀ p ∈ progs, ∀ op ∈ p, op.nonDurableBounded = true) →
     Linearizable (runSched false progs sched).hist
 
 /-- the interleaving `embMixtureSched` of two `put emb:1` and one `get emb:1`
@@ -135,7 +153,8 @@ theorem emb_mixture_witness :
     ends (`Linearizable` speaks of completed operations, so the run must have finished: a scan
     may have seen the key of a `put` that has taken only its index step).
     What is proved, for EVERY number of threads, ALL programs of put / get / delete / exists / scan
-    on keys of every class and EVERY schedule in which no operation on an `emb:` key is invoked
+    (`Op.nonDurableBounded`: scan prefixes with an end key) on keys of every class - any byte
+    strings - and EVERY schedule in which no operation on an `emb:` key is invoked
     while another operation on the same key is in progress (`NoEmbOverlap`, computed along the
     schedule; operations on different keys, scans and everything on the other classes overlap
     freely): once every thread has finished the history is linearizable — with every result
@@ -147,7 +166,7 @@ theorem emb_mixture_witness :
     vector of the metadata value; a key with an operation inside is in the partial state that
     operation's yield point implies; entity ids are never shared. -/
 theorem emb_linearizable_partial (progs : List ThreadProgram) (sched : List Nat)
-    (h : ∀ p ∈ progs, ∀ op ∈ p, op.nonDurable = true)
+    (h : ∀ p ∈ progs, ∀ op ∈ p, op.nonDurableBounded = true)
     (hx : NoEmbOverlap false progs sched = true)
     (hq : quiescent (runSched false progs sched) = true) :
     Linearizable (runSched false progs sched).hist ∧
@@ -164,23 +183,23 @@ theorem emb_linearizable_partial (progs : List ThreadProgram) (sched : List Nat)
     the put of `emb:2` and operations on `user:1`, never another operation on `emb:1`; the scan at
     step 1 already lists `emb:1` (index step done, no metadata yet) -/
 example :
-    (∀ p ∈ ([[.put ⟨.emb, 1⟩ ⟨1, .good 1⟩, .get ⟨.emb, 2⟩, .delete ⟨.emb, 1⟩],
-        [.scan (some .emb), .put ⟨.emb, 2⟩ ⟨2, .bad 2⟩, .get ⟨.emb, 1⟩],
-        [.put ⟨.plain, 1⟩ ⟨3, .none⟩, .exists_ ⟨.emb, 2⟩, .get ⟨.plain, 1⟩]] : List ThreadProgram),
-        ∀ op ∈ p, op.nonDurable = true) ∧
-    NoEmbOverlap false [[.put ⟨.emb, 1⟩ ⟨1, .good 1⟩, .get ⟨.emb, 2⟩, .delete ⟨.emb, 1⟩],
-        [.scan (some .emb), .put ⟨.emb, 2⟩ ⟨2, .bad 2⟩, .get ⟨.emb, 1⟩],
-        [.put ⟨.plain, 1⟩ ⟨3, .none⟩, .exists_ ⟨.emb, 2⟩, .get ⟨.plain, 1⟩]]
+    (∀ p ∈ ([[.put (mkKey .emb 1) ⟨1, .good 1⟩, .get (mkKey .emb 2), .delete (mkKey .emb 1)],
+        [.scan pfxEmb, .put (mkKey .emb 2) ⟨2, .bad 2⟩, .get (mkKey .emb 1)],
+        [.put (mkKey .plain 1) ⟨3, .none⟩, .exists_ (mkKey .emb 2), .get (mkKey .plain 1)]] : List ThreadProgram),
+        ∀ op ∈ p, op.nonDurableBounded = true) ∧
+    NoEmbOverlap false [[.put (mkKey .emb 1) ⟨1, .good 1⟩, .get (mkKey .emb 2), .delete (mkKey .emb 1)],
+        [.scan pfxEmb, .put (mkKey .emb 2) ⟨2, .bad 2⟩, .get (mkKey .emb 1)],
+        [.put (mkKey .plain 1) ⟨3, .none⟩, .exists_ (mkKey .emb 2), .get (mkKey .plain 1)]]
         [0, 1, 2, 1, 0, 1, 0, 1, 2, 0, 1, 1, 1, 0, 0, 0, 0, 2] = true ∧
-    quiescent (runSched false [[.put ⟨.emb, 1⟩ ⟨1, .good 1⟩, .get ⟨.emb, 2⟩, .delete ⟨.emb, 1⟩],
-        [.scan (some .emb), .put ⟨.emb, 2⟩ ⟨2, .bad 2⟩, .get ⟨.emb, 1⟩],
-        [.put ⟨.plain, 1⟩ ⟨3, .none⟩, .exists_ ⟨.emb, 2⟩, .get ⟨.plain, 1⟩]]
+    quiescent (runSched false [[.put (mkKey .emb 1) ⟨1, .good 1⟩, .get (mkKey .emb 2), .delete (mkKey .emb 1)],
+        [.scan pfxEmb, .put (mkKey .emb 2) ⟨2, .bad 2⟩, .get (mkKey .emb 1)],
+        [.put (mkKey .plain 1) ⟨3, .none⟩, .exists_ (mkKey .emb 2), .get (mkKey .plain 1)]]
         [0, 1, 2, 1, 0, 1, 0, 1, 2, 0, 1, 1, 1, 0, 0, 0, 0, 2]) = true ∧
-    (runSched false [[.put ⟨.emb, 1⟩ ⟨1, .good 1⟩, .get ⟨.emb, 2⟩, .delete ⟨.emb, 1⟩],
-        [.scan (some .emb), .put ⟨.emb, 2⟩ ⟨2, .bad 2⟩, .get ⟨.emb, 1⟩],
-        [.put ⟨.plain, 1⟩ ⟨3, .none⟩, .exists_ ⟨.emb, 2⟩, .get ⟨.plain, 1⟩]]
+    (runSched false [[.put (mkKey .emb 1) ⟨1, .good 1⟩, .get (mkKey .emb 2), .delete (mkKey .emb 1)],
+        [.scan pfxEmb, .put (mkKey .emb 2) ⟨2, .bad 2⟩, .get (mkKey .emb 1)],
+        [.put (mkKey .plain 1) ⟨3, .none⟩, .exists_ (mkKey .emb 2), .get (mkKey .plain 1)]]
         [0, 1, 2, 1, 0, 1, 0, 1, 2, 0, 1, 1, 1, 0, 0, 0, 0, 2]).hist.map (fun r => (r.t, r.i, r.res, r.inv, r.ret))
-      = [(1, 0, .keys [⟨.emb, 1⟩], 1, 1), (2, 0, .ok, 2, 2), (0, 0, .ok, 0, 6), (1, 1, .ok, 3, 7),
+      = [(1, 0, .keys [(mkKey .emb 1)], 1, 1), (2, 0, .ok, 2, 2), (0, 0, .ok, 0, 6), (1, 1, .ok, 3, 7),
          (2, 1, .bool true, 8, 8), (1, 2, .found ⟨1, .good 1⟩, 10, 12), (0, 1, .found ⟨2, .bad 2⟩, 9, 13),
          (0, 2, .ok, 14, 16), (2, 2, .found ⟨3, .none⟩, 17, 17)] := by decide
 
@@ -189,7 +208,7 @@ example :
     last step) before the other was invoked (its first step).  (The schedule form also covers the
     operations still in progress when the schedule ends, which the history does not show.) -/
 theorem no_emb_overlap_disjoint_in_history (progs : List ThreadProgram) (sched : List Nat)
-    (h : ∀ p ∈ progs, ∀ op ∈ p, op.nonDurable = true)
+    (h : ∀ p ∈ progs, ∀ op ∈ p, op.nonDurableBounded = true)
     (hx : NoEmbOverlap false progs sched = true) :
     ∀ a ∈ (runSched false progs sched).hist, ∀ b ∈ (runSched false progs sched).hist, a ≠ b →
       ∀ k, a.op.key? = some k → b.op.key? = some k → k.cls = .emb → a.ret < b.inv ∨ b.ret < a.inv := by
@@ -299,7 +318,15 @@ theorem recovered_eq_live (progs : List ThreadProgram) (sched : List Nat)
   refine ⟨hget, ?_, ?_, inv.quiescent_agree hq k⟩
   · simp only [seqOp, seqOpAux, stepOp, hex]
   · intro p
-    rw [mem_scanNow_iff recovered p k, mem_scanNow_iff live p k, hscan]
+    have hmd := inv.quiescent_agree hq k
+    obtain ⟨v1, _, c1⟩ := inv.shape
+    obtain ⟨v2, _, c2⟩ := inv.rshape
+    have e1 : live.vocab = [] := v1
+    have e2 : live.cache = [] := c1
+    have e3 : recovered.vocab = [] := v2
+    have e4 : recovered.cache = [] := c2
+    have e5 : aget recovered.md k = aget live.md k := hmd
+    rw [mem_scanNow_iff recovered p k, mem_scanNow_iff live p k, e1, e2, e3, e4, e5]
 
 /-- non-vacuity: the hypotheses hold of the race the statement is about — `delete_durable user:1`
     of a key that is absent at the start is granted while `put_durable user:1` is between its log
